@@ -215,6 +215,11 @@ def bounded_masks(p):
     got = expect(lambda: list(tree.apply_mask(arr, masks=m, replace_false_with=-1)))
     if not S.check(got == ('ok', [x if k else -1 for x, k in zip(arr.tolist(), mask)]), dict(mode='ndarray replace', mask=list(mask)), f'apply_mask(array, {mask}, replace=-1) = {got}', cls='nd-replace'):
       return S.result()
+    # a replacement value that the items' dtype cannot hold keeps its value (np.where promotes the result)
+    got = expect(lambda: [float(x) for x in tree.apply_mask(arr, masks=m, replace_false_with=0.5)])
+    if not S.check(got == ('ok', [float(x) if k else 0.5 for x, k in zip(arr.tolist(), mask)]), dict(mode='ndarray replace with a fractional value', mask=list(mask)),
+                   f'apply_mask(int array, {mask}, replace=0.5) = {got}', cls='nd-replace-frac'):
+      return S.result()
   d = {'p': [1, 2], 'q': [3]}
   got = expect(lambda: tree.apply_mask(d, masks={'p': [True, False], 'q': True}))
   S.check(got == ('ok', {'p': [1], 'q': [3]}), dict(mode='dict mask'), f'dict mask: {got}')
